@@ -601,6 +601,7 @@ fn check_predictions(c: &mut Case, d: &Data, ft: &Fitted, sg: &str) {
     if !c.check("lr.predict.length", pred.len() == xp.r, sg, || format!("{} predictions for {} rows", pred.len(), xp.r)) {
         return;
     }
+    sequence_checks(c, "lr", sg, &ft.model, &xm, &pred, |m, q| m.predict(q));
     let q = p + 1;
     let th = &ft.theta;
     let mut bad_label: Option<(usize, f64)> = None;
